@@ -28,7 +28,7 @@ for j in $(seq 0 $((jobs-1))); do
     wt="$base/wt$j"
     git -C /repo worktree add -q --detach "$wt" HEAD || exit 2
     for id in $(cat "$base/q.$j"); do
-      p=${id%%-*}
+      p=${SEED_PROP:-${id%%-*}}
       SEED_REPO="$wt" SEED_GV="$base/gverif" SEED_HOME="$base/home$j" \
         /verif/tools/seed_check.sh "/verif/seeded/$id/patch.diff" quick $p > "$base/$id.txt" 2>&1
     done
